@@ -95,6 +95,24 @@ fn run_route(name: &'static str, text: &[u8], json: bool, explicit: bool, prog_p
     Some(RouteOut { name, out, err: trunc(&line, 300) })
 }
 
+/// digits -> N: a stable shape of an error message
+fn err_shape(msg: &str) -> String {
+    let mut out = String::new();
+    let mut last_n = false;
+    for c in msg.chars() {
+        if c.is_ascii_digit() {
+            if !last_n {
+                out.push('N');
+            }
+            last_n = true;
+        } else {
+            last_n = false;
+            out.push(c);
+        }
+    }
+    trunc(&out, 100)
+}
+
 #[derive(Debug, PartialEq, Clone, Copy)]
 pub enum Outcome {
     /// all three succeeded with `n` equal values
@@ -175,8 +193,11 @@ pub fn check_case(c: &Case, st: &mut Stats) -> Result<Outcome, Fail> {
     }
     for r in &rs[1..] {
         if r.out.code != rs[0].out.code {
+            // name the route that failed and the shape of its message
+            let failing = if rs[0].out.code != Some(0) { &rs[0] } else { r };
+            let ok_route = if rs[0].out.code != Some(0) { r.name } else { rs[0].name };
             return Err(Fail::new(
-                format!("C26/exit-status-differs/json={:?}/{}={:?}", rs[0].out.code, r.name, r.out.code),
+                format!("C26/exit-status-differs/{}-fails-{}-succeeds/{}", failing.name, ok_route, err_shape(&failing.err)),
                 detail(&rs, json!({})),
             ));
         }
